@@ -955,6 +955,12 @@ func (b *BaseStore) recalculateReplicationProgress() {
 
 	}
 
+	// the log may have grown since the maximum was computed (a merge landing between the two steps
+	// of a status update): progress never runs ahead of the maximum
+	if max > b.ReplicationStatus().GetMax() {
+		b.ReplicationStatus().SetMax(max)
+	}
+
 	b.ReplicationStatus().SetProgress(max)
 }
 
